@@ -35,6 +35,7 @@ type Env struct {
 	result []tval
 	resNames []string
 	depth  int
+	inOld        bool // inside old(.): a parameter name means its entry value, not the loop's current value
 	paramsOnly   bool // names other than parameters do not resolve (lemma instances tried at entry)
 	noteDistinct bool // evaluating an assumed precondition: alloc(a) != alloc(b) facts may be recorded
 }
@@ -293,6 +294,13 @@ func (e *Env) lookupLocal(name string) (tval, bool) {
 		return tval{}, false
 	}
 	fr := e.fr
+	if e.inOld {
+		for i, p := range fn.Params {
+			if p.Name() == name && i < len(fr.params) {
+				return tval{T: p.Type(), C: fr.params[i]}, true
+			}
+		}
+	}
 	if e.loop != nil {
 		for _, in := range e.loop.header.Instrs {
 			phi, ok := in.(*ssa.Phi)
@@ -791,12 +799,21 @@ func (e *Env) evalBin(x EBin) (tval, error) {
 
 func (e *Env) evalCall(x ECall) (tval, error) {
 	switch x.Fun {
+	case "entry":
+		// entry(p): the value parameter p had on entry (parameters are mutable), read in the current state
+		if len(x.Args) != 1 {
+			return tval{}, fmt.Errorf("entry takes one argument")
+		}
+		ne := *e
+		ne.inOld = true
+		return ne.eval(x.Args[0])
 	case "old":
 		if len(x.Args) != 1 {
 			return tval{}, fmt.Errorf("old takes one argument")
 		}
 		ne := *e
 		ne.st = e.old
+		ne.inOld = true
 		v, err := ne.eval(x.Args[0])
 		v.St = e.old
 		return v, err
